@@ -195,7 +195,7 @@ def get_atom_lines_from_pdb(
         if tag == 'MODEL ':
             model = int(line[6:])
             nterm_residue = 'next_residue'
-        if tag == 'TER   ':
+        if tag.rstrip() == 'TER':
             nterm_residue = 'next_residue'
         if tag in tags:
             alt_conf_tag = line[16]
